@@ -4,4 +4,5 @@ INVARIANT ContractAccepted
 INVARIANT UnmodifiedVerbatim
 INVARIANT AncestorLeftValid
 INVARIANT RegenRejected
+INVARIANT NoUpgradeRejected
 CHECK_DEADLOCK FALSE
